@@ -57,6 +57,9 @@ type c12xWorld struct {
 	V1Dutch, V1LendDutch, V1Surplus, V1Debt         uint64 // generation-1 auction ids (0 = not running)
 	V1SurplusMap, V1DebtMap                         uint64
 	SoloApp, SoloExtPair                            uint64
+	V2DutchExternal                                 uint64 // generation-2 dutch auction of an external-keeper liquidation
+	Pool2, CrossPair, CrossBorrow                   uint64 // second lend pool; CMDX (pool 1) -> USDC (pool 2) pair; an unhealthy, unseized cross-pool borrow of a helper
+	V1LendDutchCross                                uint64 // generation-1 lend dutch auction of a seized cross-pool borrow
 	Notes                                           []string
 }
 
@@ -74,7 +77,7 @@ func c12xFundModule(t *testing.T, a *chain.App, ctx sdk.Context, module string, 
 func c12xSetup(t *testing.T, a *chain.App, base sdk.Context) *c12xWorld {
 	views0 := c12SetupN(t, a, base, 3)
 	w := views0[0]
-	x := &c12xWorld{app: a, Base: w, Keeper: addrN(35), Help: []sdk.AccAddress{addrN(31), addrN(32), addrN(33)}}
+	x := &c12xWorld{app: a, Base: w, Keeper: addrN(35), Help: []sdk.AccAddress{addrN(31), addrN(32), addrN(33), addrN(34), addrN(36)}}
 	ctx, _ := w.Ctx.CacheContext()
 	harbor, commodo := w.VaultApp, w.LendApp
 	rich := sdk.NewCoins(c12Coin(c12DenomCMDX, 1_000_000_000_000), c12Coin(c12DenomCMST, 1_000_000_000_000), c12Coin(c12DenomATOM, 1_000_000_000_000),
@@ -147,6 +150,35 @@ func c12xSetup(t *testing.T, a *chain.App, base sdk.Context) *c12xWorld {
 	}
 	c12Exec(t, a, ctx, "solo vault MsgCreate", vaulttypes.NewMsgCreateRequest(w.LP, x.SoloApp, x.SoloExtPair, sdk.NewInt(100_000_000), sdk.NewInt(20_000_000)))
 
+	// ---------- a second lend pool (USDC main, the same transit assets): cross-pool borrows bridged through ATOM ----------
+	cusdc := addAsset(t, a, ctx, "CUSDC", "ucusdc", 1000000, false, false)
+	if err := a.LendKeeper.AddPoolRecords(ctx, lendtypes.Pool{ModuleName: lendtypes.ModuleAcc2, CPoolName: "USDC-ATOM-CMST", AssetData: []*lendtypes.AssetDataPoolMapping{
+		{AssetID: w.USDC, AssetTransitType: 1, SupplyCap: sdk.NewDec(5_000_000_000_000_000_000)},
+		{AssetID: w.ATOM, AssetTransitType: 2, SupplyCap: sdk.NewDec(5_000_000_000_000_000_000)},
+		{AssetID: w.CMST, AssetTransitType: 3, SupplyCap: sdk.NewDec(5_000_000_000_000_000_000)}}}); err != nil {
+		t.Fatalf("c12x AddPoolRecords: %v", err)
+	}
+	pools := a.LendKeeper.GetPools(ctx)
+	x.Pool2 = pools[len(pools)-1].PoolID
+	if err := a.LendKeeper.AddAssetRatesParams(ctx, lendtypes.AssetRatesParams{AssetID: w.USDC, UOptimal: c12Dec("0.8"), Base: c12Dec("0.002"), Slope1: c12Dec("0.06"), Slope2: c12Dec("0.6"),
+		EnableStableBorrow: true, StableBase: c12Dec("0.04"), StableSlope1: c12Dec("0.04"), StableSlope2: c12Dec("0.06"), Ltv: c12Dec("0.8"), LiquidationThreshold: c12Dec("0.85"),
+		LiquidationPenalty: c12Dec("0.05"), LiquidationBonus: c12Dec("0.05"), ReserveFactor: c12Dec("0.2"), CAssetID: cusdc}); err != nil {
+		t.Fatalf("c12x AddAssetRatesParams: %v", err)
+	}
+	if err := a.LendKeeper.AddLendPairsRecords(ctx, lendtypes.Extended_Pair{AssetIn: w.CMDX, AssetOut: w.USDC, IsInterPool: true, AssetOutPoolID: x.Pool2, MinUsdValueLeft: 100000}); err != nil {
+		t.Fatalf("c12x AddLendPairsRecords: %v", err)
+	}
+	x.CrossPair = a.LendKeeper.GetLendPairID(ctx)
+	if err := a.LendKeeper.AddMultipleAssetToPair(ctx, []lendtypes.AssetToPairSingleMapping{{AssetID: w.CMDX, PoolID: w.LendPool, PairID: x.CrossPair}}); err != nil {
+		t.Fatalf("c12x AddMultipleAssetToPair: %v", err)
+	}
+	for _, f := range []struct {
+		asset uint64
+		coin  sdk.Coin
+	}{{w.USDC, c12Coin(c12DenomUSDC, 10_000_000_000)}, {w.ATOM, c12Coin(c12DenomATOM, 10_000_000_000)}, {w.CMST, c12Coin(c12DenomCMST, 10_000_000_000)}} {
+		c12Exec(t, a, ctx, "FundModuleAccounts pool 2", lendtypes.NewMsgFundModuleAccounts(x.Pool2, f.asset, w.LP.String(), f.coin))
+	}
+
 	// ---------- positions at the old price: the owners lean on their positions, helpers open the ones to be seized ----------
 	for _, v := range views0 {
 		c12Exec(t, a, ctx, "owner vault MsgDraw", vaulttypes.NewMsgDrawRequest(v.Owner, harbor, w.ExtPair, v.VaultID, sdk.NewInt(70_000_000)))
@@ -169,6 +201,23 @@ func c12xSetup(t *testing.T, a *chain.App, base sdk.Context) *c12xWorld {
 	if !found {
 		t.Fatal("c12x helper vault not found")
 	}
+
+	var crossBorrow [2]uint64
+	for i, h := range []sdk.AccAddress{x.Help[3], x.Help[4]} {
+		c12Exec(t, a, ctx, "helper Lend (cross)", lendtypes.NewMsgLend(h.String(), w.CMDX, c12Coin(c12DenomCMDX, 1_000_000_000), w.LendPool, commodo))
+		lid, ok := a.LendKeeper.GetLendIDForAssetIDPoolID(ctx, h.String(), w.CMDX, w.LendPool)
+		if !ok {
+			t.Fatal("c12x helper lend (cross) not found")
+		}
+		c12Exec(t, a, ctx, "helper Borrow (cross)", lendtypes.NewMsgBorrow(h.String(), lid, x.CrossPair, false, c12Coin(c12DenomCCMDX, 500_000_000), c12Coin(c12DenomUSDC, 320_000_000)))
+		if crossBorrow[i], ok = a.LendKeeper.GetBorrowIDForAddressByPair(ctx, h.String(), x.CrossPair); !ok {
+			t.Fatal("c12x helper cross-pool borrow not found")
+		}
+		if b, _ := a.LendKeeper.GetBorrow(ctx, crossBorrow[i]); b.BridgedAssetAmount.Amount.IsZero() {
+			t.Fatal("c12x: the cross-pool borrow has no bridged asset")
+		}
+	}
+	x.CrossBorrow = crossBorrow[0]
 
 	// ---------- next block: the collateral price falls ----------
 	ctx = c12NextBlock(a, ctx)
@@ -200,6 +249,19 @@ func c12xSetup(t *testing.T, a *chain.App, base sdk.Context) *c12xWorld {
 	if x.V1LendDutch == 0 {
 		t.Fatal("c12x: no generation-1 lend dutch auction")
 	}
+
+	c12Exec(t, a, ctx, "V1 liquidate helper cross-pool borrow", liquidationtypes.NewMsgLiquidateBorrowRequest(x.Keeper, crossBorrow[1]))
+	for _, au := range a.AuctionKeeper.GetDutchLendAuctions(ctx, commodo) {
+		if au.AuctionId != x.V1LendDutch {
+			x.V1LendDutchCross = au.AuctionId
+		}
+	}
+	if x.V1LendDutchCross == 0 {
+		t.Fatal("c12x: no generation-1 lend dutch auction of the cross-pool borrow")
+	}
+	c12Exec(t, a, ctx, "V2 external-keeper liquidation", liquidationsv2types.NewMsgLiquidateExternalKeeperRequest(x.Keeper, harbor, x.Keeper.String(),
+		c12Coin(c12DenomATOM, 10_000_000), c12Coin(c12DenomCMST, 50_000_000), w.ATOM, w.CMST, false))
+	x.V2DutchExternal = a.NewaucKeeper.GetAuctionID(ctx)
 
 	// generation-2 english auctions through the module's own starter
 	if err := a.CollectorKeeper.WasmUpdateCollectorLookupTable(ctx, &bindings.MsgUpdateCollectorLookupTable{AppID: harbor, AssetID: w.CMST, DebtThreshold: sdk.NewInt(5_000_000),
@@ -313,7 +375,9 @@ func c12xMessages(x *c12xWorld, v *c12World, signer sdk.AccAddress) []c12xMsg {
 	// ---------- liquidation, generation 1 ----------
 	add("liquidation.MsgLiquidateVault", "vault", liquidationtypes.NewMsgLiquidateRequest(signer, har, v.VaultID), "X", har, 1)
 	add("liquidation.MsgLiquidateBorrow", "borrow", liquidationtypes.NewMsgLiquidateBorrowRequest(signer, v.BorrowID), "X", com, 1)
+	add("liquidation.MsgLiquidateBorrow", "borrow-cross-pool", liquidationtypes.NewMsgLiquidateBorrowRequest(signer, x.CrossBorrow), "X", com, 1)
 	// ---------- liquidationsV2 ----------
+	add("liquidationsV2.MsgLiquidateInternalKeeper", "borrow-cross-pool", liquidationsv2types.NewMsgLiquidateInternalKeeperRequest(signer, 1, x.CrossBorrow), "X", com, 1)
 	add("liquidationsV2.MsgLiquidateInternalKeeper", "vault", liquidationsv2types.NewMsgLiquidateInternalKeeperRequest(signer, 0, v.VaultID), "X", har, 1)
 	add("liquidationsV2.MsgLiquidateInternalKeeper", "borrow", liquidationsv2types.NewMsgLiquidateInternalKeeperRequest(signer, 1, v.BorrowID), "X", com, 1)
 	add("liquidationsV2.MsgLiquidateExternalKeeper", "external", liquidationsv2types.NewMsgLiquidateExternalKeeperRequest(signer, har, v.Owner.String(),
@@ -322,6 +386,7 @@ func c12xMessages(x *c12xWorld, v *c12World, signer sdk.AccAddress) []c12xMsg {
 	// ---------- auction, generation 1 ----------
 	add("auction.MsgPlaceDutchBid", "v1-dutch", auctiontypes.NewMsgPlaceDutchBid(s, x.V1Dutch, c12Coin(c12DenomCMDX, 10_000_000), har, 3), "X", har, 1)
 	add("auction.MsgPlaceDutchLendBid", "v1-lend-dutch", auctiontypes.NewMsgPlaceDutchLendBid(s, x.V1LendDutch, c12Coin(c12DenomCMDX, 10_000_000), com, 3), "X", com, 1)
+	add("auction.MsgPlaceDutchLendBid", "v1-lend-dutch-cross-pool", auctiontypes.NewMsgPlaceDutchLendBid(s, x.V1LendDutchCross, c12Coin(c12DenomCMDX, 10_000_000), com, 3), "X", com, 1)
 	if x.V1Surplus != 0 {
 		add("auction.MsgPlaceSurplusBid", "v1-surplus", auctiontypes.NewMsgPlaceSurplusBid(s, x.V1Surplus, c12Coin(c12DenomHARBOR, 3_000_000), x.SoloApp, x.V1SurplusMap), "X", x.SoloApp, 1)
 	}
@@ -331,6 +396,7 @@ func c12xMessages(x *c12xWorld, v *c12World, signer sdk.AccAddress) []c12xMsg {
 	// ---------- auctionsV2 ----------
 	add("auctionsV2.MsgPlaceMarketBid", "v2-dutch-vault", auctionsv2types.NewMsgPlaceMarketBid(s, x.V2DutchVault, c12Coin(c12DenomCMST, 10_000_000)), "X", har, 1)
 	add("auctionsV2.MsgPlaceMarketBid", "v2-dutch-borrow", auctionsv2types.NewMsgPlaceMarketBid(s, x.V2DutchBorrow, c12Coin(c12DenomCMST, 10_000_000)), "X", com, 1)
+	add("auctionsV2.MsgPlaceMarketBid", "v2-dutch-external", auctionsv2types.NewMsgPlaceMarketBid(s, x.V2DutchExternal, c12Coin(c12DenomCMST, 10_000_000)), "X", har, 1)
 	add("auctionsV2.MsgPlaceMarketBid", "v2-english-surplus", auctionsv2types.NewMsgPlaceMarketBid(s, x.V2Surplus, c12Coin(c12DenomHARBOR, 3_000_000)), "X", har, 1)
 	add("auctionsV2.MsgPlaceMarketBid", "v2-english-debt", auctionsv2types.NewMsgPlaceMarketBid(s, x.V2Debt, c12Coin(c12DenomHARBOR, 1_900_000)), "X", har, 1)
 	add("auctionsV2.MsgDepositLimitBid", "limit", auctionsv2types.NewMsgDepositLimitBid(s, w.BidCollateralAsset, w.BidDebtAsset, w.BidPremium, c12Coin(c12DenomCMST, 5_000_000)), "X", har, 1)
